@@ -117,9 +117,15 @@ Section GenFacts.
 
   (* ---- keys ------------------------------------------------------------------ *)
   Theorem gen_key_shape k :
-    (valid_ident k = true /\ gk k = [(TokenIdent, utf8 k)]) \/
-    (valid_ident k = false /\ gk k = gs k).
-  Proof. unfold gen_key. destruct (valid_ident k); [left|right]; split; reflexivity. Qed.
+    (valid_ident k = true /\ utf8 k <> b_for /\ gk k = [(TokenIdent, utf8 k)]) \/
+    ((valid_ident k = false \/ utf8 k = b_for) /\ gk k = gs k).
+  Proof.
+    unfold gen_key. destruct (valid_ident k); simpl andb.
+    - destruct (zlist_eqb (utf8 k) b_for) eqn:E; simpl negb; cbv iota.
+      + right. split; [right; apply zlist_eqb_eq, E|reflexivity].
+      + left. repeat split. intros Hk. apply zlist_eqb_eq in Hk. congruence.
+    - right. split; [left|]; reflexivity.
+  Qed.
 
   (* ---- nesting --------------------------------------------------------------- *)
   Lemma bal_string s stk rest : bal stk (gs s ++ rest) = bal stk rest.
@@ -129,7 +135,7 @@ Section GenFacts.
 
   Lemma bal_key k stk rest : bal stk (gk k ++ rest) = bal stk rest.
   Proof.
-    destruct (gen_key_shape k) as [[_ E]|[_ E]]; rewrite E; [reflexivity|apply bal_string].
+    destruct (gen_key_shape k) as [(_ & _ & E)|[_ E]]; rewrite E; [reflexivity|apply bal_string].
   Qed.
 
   Definition nests (v : val) : Prop := forall stk rest, bal stk (gv v ++ rest) = bal stk rest.
@@ -175,41 +181,27 @@ Section GenFacts.
   Theorem gen_value_balanced v : balanced (gv v).
   Proof. unfold balanced. rewrite <- (app_nil_r (gv v)). rewrite gen_value_nests. reflexivity. Qed.
 
-  (* ---- the `for` defect ---------------------------------------------------- *)
-  Definition k_for : list Z := [102; 111; 114].
-
-  (* refutation witness: a mapping whose first key is the identifier `for` is
-     generated as  { NEWLINE for = ...  and the parser's look-ahead takes it for a
-     for-expression *)
-  Theorem value_roundtrip_refuted :
-    valid_ident k_for = true ->
-    forall x r,
-      (exists rest, gv (VMap ((k_for, x) :: r)) = t_obrace :: t_newline :: (TokenIdent, b_for) :: t_equal :: rest) /\
-      reads_as_for_expr (gv (VMap ((k_for, x) :: r))) = true.
+  (* ---- the `for` look-ahead never fires ---------------------------------------- *)
+  (* (DESIGN §9 #5, fixed in /repo by "TokensForValue must quote the object key
+     for".) A generated mapping, followed by anything, is never taken for a
+     for-expression by the parser's look-ahead: its first key is either a bare
+     identifier other than `for`, or a quoted string, or there is no key. *)
+  Theorem mapping_never_reads_as_for kvs rest :
+    reads_as_for_expr (gv (VMap kvs) ++ rest) = false.
   Proof.
-    intros H x r. rewrite gen_value_map. cbn [gen_items]. unfold gen_key. rewrite H.
-    split; [eexists; reflexivity|reflexivity].
-  Qed.
-
-  (* positive part: when the first key is anything else (or there is no key),
-     the look-ahead does not fire at the top level *)
-  Theorem keys_roundtrip_partial kvs :
-    match kvs with
-    | (k, _) :: _ => Forall valid_scalar k /\ k <> k_for
-    | [] => True
-    end ->
-    reads_as_for_expr (gv (VMap kvs)) = false.
-  Proof.
-    intros H. rewrite gen_value_map. destruct kvs as [|[k x] r]; [reflexivity|].
-    destruct H as [Hv Hne]. cbn [gen_items]. simpl app.
+    rewrite gen_value_map. destruct kvs as [|[k x] r]; [reflexivity|].
+    cbn [gen_items]. simpl app.
     unfold reads_as_for_expr. simpl fst. change (TokenOBrace =? TokenOBrace) with true.
     cbn [skip_newlines]. simpl fst. change (TokenNewline =? TokenNewline) with true. cbv iota.
-    destruct (gen_key_shape k) as [[_ E]|[_ E]]; rewrite E.
+    destruct (gen_key_shape k) as [(_ & Hne & E)|[_ E]]; rewrite E.
     - simpl. destruct (zlist_eqb (utf8 k) b_for) eqn:Ez; [|reflexivity].
-      exfalso. apply Hne. apply zlist_eqb_eq in Ez.
-      apply utf8_eq_ascii; [assumption| |exact Ez]. unfold b_for. repeat constructor; lia.
+      apply zlist_eqb_eq in Ez. contradiction.
     - destruct (gen_string_shape k) as [[E2 _]|[E2 _]]; rewrite E2; reflexivity.
   Qed.
+
+  (* the key `for` itself is written quoted *)
+  Theorem key_for_is_quoted : gk [102; 111; 114] = gs [102; 111; 114].
+  Proof. unfold gen_key. rewrite andb_false_r. reflexivity. Qed.
 
   (* ---- traversals ------------------------------------------------------------- *)
   Definition step_tokens (st : step) : list tok :=
@@ -293,33 +285,63 @@ Section GenFacts.
   Lemma last_snoc {A} (l : list A) a d : last (l ++ [a]) d = a.
   Proof. induction l as [|x l IH]; [reflexivity|]. simpl. destruct (l ++ [a]) eqn:E; [destruct l; discriminate|exact IH]. Qed.
 
-  Lemma removelast_snoc {A} (l : list A) a : removelast (l ++ [a]) = l.
-  Proof. apply removelast_last. Qed.
+  Lemma tok_bytes_pieces ps : tok_bytes (map piece_tok ps) = flat_map piece_bytes ps.
+  Proof. induction ps as [|p ps IH]; [reflexivity|]. unfold tok_bytes in *. simpl. rewrite IH. destruct p; reflexivity. Qed.
 
-  (* (2) hclwrite reading after Bytes() + ParseConfig (blockLabels.Current on
-         the re-lexed tokens, joining all literal tokens): always the label *)
-  Theorem label_relex_roundtrip l :
+  (* blockLabels.Replace then Current (Block.Labels() of a block built through
+     the writer API, and SetLabels): for EVERY label of Unicode scalar values the
+     re-scan succeeds, the stored tokens spell exactly the generated text
+     "escape(label)" in quotes, and Current returns the label *)
+  Theorem label_replace_roundtrip l :
     Forall valid_scalar l ->
-    exists ts, relex_quoted (gs l) = Some ts /\ current_label (LQuoted ts) = [utf8 l].
+    exists ts, replace_label is_print l = Some ts /\
+               tok_bytes ts = 34 :: esc l ++ [34] /\
+               current_label (LQuoted ts) = [utf8 l].
   Proof.
     intros Hv. destruct (string_codec is_print brace_printable l [] Hv) as (_ & (ps & Hlex & Hall & Hread) & _).
-    unfold relex_quoted. rewrite gen_string_bytes. rewrite Hlex.
-    eexists. split; [reflexivity|].
-    destruct ps as [|p ps].
-    - simpl in Hread. inversion Hread. reflexivity.
-    - set (r := map piece_tok (p :: ps) ++ [t_cquote]).
-      assert (Er : exists x y z, r = x :: y :: z).
-      { unfold r. simpl. destruct ps; simpl; do 3 eexists; reflexivity. }
-      destruct Er as (x & y & z & Er).
-      change (current_label (LQuoted (t_oquote :: r)) = [utf8 l]).
-      assert (E1 : last r t_oquote = t_cquote) by apply last_snoc.
-      assert (E2 : join_lits (removelast r) = Some (utf8 l)).
-      { unfold r. rewrite removelast_snoc, join_lits_pieces. exact Hread. }
-      unfold current_label. rewrite Er in *. rewrite E1, E2. reflexivity.
+    unfold replace_label, relex_quoted. rewrite gen_string_bytes. rewrite Hlex.
+    eexists. split; [reflexivity|]. split.
+    - apply lexq_tiles in Hlex. simpl pend in Hlex. simpl app in Hlex.
+      unfold tok_bytes. cbn [flat_map]. rewrite flat_map_app. simpl.
+      fold (tok_bytes (map piece_tok ps)). rewrite tok_bytes_pieces. rewrite Hlex.
+      reflexivity.
+    - destruct ps as [|p ps].
+      + simpl in Hread. inversion Hread. reflexivity.
+      + set (r := map piece_tok (p :: ps) ++ [t_cquote]).
+        assert (Er : exists x y z, r = x :: y :: z).
+        { unfold r. simpl. destruct ps; simpl; do 3 eexists; reflexivity. }
+        destruct Er as (x & y & z & Er).
+        change (current_label (LQuoted (t_oquote :: r)) = [utf8 l]).
+        assert (E1 : last r t_oquote = t_cquote) by apply last_snoc.
+        assert (E2 : join_lits (removelast r) = Some (utf8 l)).
+        { unfold r. rewrite removelast_last, join_lits_pieces. exact Hread. }
+        unfold current_label. rewrite Er in *. rewrite E1, E2. reflexivity.
   Qed.
 
-  (* sufficient condition for a label to be lexed as ONE literal token: no '$'
-     and no '%' *)
+  (* writing the block out and loading it again (Bytes() + hclwrite.ParseConfig)
+     gives the same label tokens: re-scanning is idempotent *)
+  Theorem label_rescan_idempotent l ts :
+    Forall valid_scalar l -> replace_label is_print l = Some ts -> relex_quoted ts = Some ts.
+  Proof.
+    intros Hv H. destruct (label_replace_roundtrip l Hv) as (ts' & E & Hb & _).
+    rewrite H in E. inversion E; subst ts'. unfold replace_label in H.
+    unfold relex_quoted in *. rewrite Hb. rewrite gen_string_bytes in H. exact H.
+  Qed.
+
+  (* all labels of a block at once: Labels() as built, and after reloading *)
+  Theorem labels_roundtrip ls :
+    Forall (Forall valid_scalar) ls ->
+    exists nodes, replace_labels is_print ls = map Some nodes /\
+                  current_labels (map LQuoted nodes) = map utf8 ls /\
+                  map relex_quoted nodes = map Some nodes.
+  Proof.
+    induction 1 as [|l ls Hv _ (nodes & E1 & E2 & E3)]; [exists []; repeat split|].
+    destruct (label_replace_roundtrip l Hv) as (ts & Et & _ & Ec).
+    exists (ts :: nodes). unfold replace_labels, current_labels in *. cbn [map flat_map].
+    rewrite Et, E1, Ec, E2, E3. rewrite (label_rescan_idempotent l ts Hv Et). repeat split.
+  Qed.
+
+  (* a label without '$' and '%' is one literal token *)
   Theorem label_relex_plain l :
     Forall valid_scalar l -> Forall plain l -> (lit_count l <= 1)%nat.
   Proof.
@@ -337,11 +359,13 @@ Section GenFacts.
     rewrite E. simpl. destruct (esc l); simpl; lia.
   Qed.
 
-  (* HISTORICAL (DESIGN §9 #3, fixed in /repo by "Block.Labels must read quoted
-     labels that contain $ or %"): the reader that accepted exactly one literal
-     token dropped the label  a$b , which is lexed as three literal tokens.
-     Kept to document why the literal tokens must be joined; the correspondence
-     run distinguishes the two readers. *)
+  (* HISTORICAL (both fixed in /repo; kept because they explain WHY Replace
+     re-scans and Current joins): (a) a reader accepting exactly one literal
+     token drops the label a$b, which the scanner cuts into three tokens;
+     (b) ParseStringLiteralToken applied to the whole escaped text of the label
+     "$${" as ONE token (what Replace stored before it re-scanned) gives "$$${",
+     because scan_string_lit.rl takes "$$" first where the scanner takes "$",
+     "$${". The current Replace/Current read both back. *)
   Definition current_label_single_token (ts : list tok) : list (list Z) :=
     match ts with
     | [o; l; c] =>
@@ -354,65 +378,29 @@ Section GenFacts.
 
   Theorem label_single_token_reader_refuted :
     is_print 97 = true -> is_print 98 = true ->
-    exists l ts, Forall valid_scalar l /\ relex_quoted (gs l) = Some ts /\
+    exists l ts, Forall valid_scalar l /\ replace_label is_print l = Some ts /\
                  current_label_single_token ts = [] /\ lit_count l = 3%nat /\
                  current_label (LQuoted ts) = [utf8 l].
   Proof.
     intros Ha Hb. exists [97; 36; 98].
     assert (E : esc [97; 36; 98] = [97; 36; 98]).
     { cbn [escape]. unfold escape_rune. simpl. rewrite Ha, Hb. reflexivity. }
-    unfold relex_quoted, lit_count. rewrite gen_string_bytes, E.
+    unfold replace_label, relex_quoted, lit_count. rewrite gen_string_bytes, E.
     eexists. split; [repeat constructor; unfold valid_scalar; lia|].
     split; [reflexivity|]. repeat split; reflexivity.
   Qed.
 
-  (* (3) Labels() of the block as built (blockLabels.Current on the tokens
-         Replace made: ONE TokenQuotedLit holding the whole escaped text, which
-         ParseStringLiteralToken cuts differently from the scanner) *)
-  Theorem label_fresh_roundtrip l :
-    Forall valid_scalar l -> no_double l ->
-    current_label (LQuoted (gs l)) = [utf8 l].
-  Proof.
-    intros Hv Hnd. pose proof (unescape_escape_no_double is_print brace_printable l Hv Hnd) as H.
-    destruct (gen_string_shape l) as [[E En]|[E _]]; rewrite E.
-    - rewrite En in H. change (unescape []) with (UOk [] []) in H. inversion H. reflexivity.
-    - cbn [current_label last removelast join_lits]. simpl fst. simpl snd.
-      change (TokenOQuote =? TokenOQuote) with true. change (TokenCQuote =? TokenCQuote) with true.
-      change (TokenQuotedLit =? TokenQuotedLit) with true. simpl andb. cbv iota.
-      rewrite H. rewrite app_nil_r. reflexivity.
-  Qed.
-
-  Theorem label_fresh_refuted :
-    exists l, Forall valid_scalar l /\ current_label (LQuoted (gs l)) = [[36; 36; 36; 123]]
-              /\ utf8 l = [36; 36; 123].
+  Theorem label_whole_token_unescape_refuted :
+    exists l, Forall valid_scalar l /\ utf8 l = [36; 36; 123] /\
+              unescape (esc l) = UOk [36; 36; 36; 123] [] /\
+              exists ts, replace_label is_print l = Some ts /\ current_label (LQuoted ts) = [utf8 l].
   Proof.
     exists [36; 36; 123].
     assert (E : esc [36; 36; 123] = [36; 36; 36; 123]).
     { cbn [escape]. unfold escape_rune. simpl. rewrite brace_printable. reflexivity. }
     split; [repeat constructor; unfold valid_scalar; lia|].
-    unfold gen_string. rewrite E. split; reflexivity.
-  Qed.
-
-  (* all labels of a block at once *)
-  Theorem labels_fresh_roundtrip ls :
-    Forall (fun l => Forall valid_scalar l /\ no_double l) ls ->
-    current_labels (map LQuoted (replace_labels is_print ls)) = map utf8 ls.
-  Proof.
-    induction 1 as [|l ls [Hv Hnd] _ IH]; [reflexivity|].
-    unfold current_labels, replace_labels in *. cbn [map flat_map].
-    rewrite label_fresh_roundtrip by assumption. rewrite IH. reflexivity.
-  Qed.
-
-  Theorem labels_relex_roundtrip ls :
-    Forall (Forall valid_scalar) ls ->
-    exists nodes, map (fun l => relex_quoted (gs l)) ls = map Some nodes /\
-                  current_labels (map LQuoted nodes) = map utf8 ls.
-  Proof.
-    induction 1 as [|l ls Hv _ (nodes & E1 & E2)]; [exists []; split; reflexivity|].
-    destruct (label_relex_roundtrip l Hv) as (ts & Et & Ec).
-    exists (ts :: nodes). split.
-    - cbn [map]. rewrite Et, E1. reflexivity.
-    - unfold current_labels in *. cbn [map flat_map]. rewrite Ec, E2. reflexivity.
+    split; [reflexivity|]. rewrite E. split; [reflexivity|].
+    unfold replace_label, relex_quoted. rewrite gen_string_bytes, E. eexists. split; reflexivity.
   Qed.
 End GenFacts.
 
